@@ -2,6 +2,7 @@
 (their native meaning is the builtin itself; symbolically they are uninterpreted, plus the facts stated in
 pyvc/builtins_model.py)."""
 from pyvc.contracts import specfn
+from pyvc.specbuiltins import *
 
 
 @specfn({'s': 'str', 'sep': 'str'}, 'int', opaque=True)
